@@ -147,7 +147,11 @@ def oracle_c07(cases, impl, model):
     fails = []
     for k, (c, i) in enumerate(zip(cases, impl)):
         exp = c.get("expect_values")
-        if exp is None or i.error:
+        if exp is None:
+            continue
+        if i.error:
+            if exp and not i.error.startswith("notrun") and model[k].answers:
+                fails.append({"case_index": k, "what": "branch answers %s are never produced: the search does not return (%s)" % (exp, i.error)})
             continue
         got = {a[0][0] for a in i.answers}
         missing = [v for v in exp if str(v) not in got]
@@ -238,6 +242,19 @@ def run_c08(tier, seed, replay=None):
         pre = [g.goal(list(q))] if rnd.random() < 0.4 else []
         post = [g.goal(list(q))] if rnd.random() < 0.4 else []
         cases.append(mk_case([], q, pre + [[op] + clauses] + post))
+    # the committed head answers are filtered by later goals: the first head answer is rejected, a later one accepted
+    for _ in range(n // 4):
+        vals = rnd.sample([1, 2, 3, 4], rnd.randint(2, 4))
+        pick = rnd.choice(vals)
+        op = rnd.choice(["conda", "condu", "onceo"])
+        head = rnd.choice([["lib", "member", "q", ["list"] + vals], ["cond"] + [["eq", "q", v] for v in vals],
+                           ["loop", ["cond"] + [["eq", "q", v] for v in vals]]])
+        rest = rnd.choice([["eq", "q", pick], ["neq", "q", vals[0]], ["lib", "member", "q", ["list", pick, 9]]])
+        shape = rnd.choice([[op, head, rest] if op == "onceo" else [op, ["conj", head, rest]], [op, ["conj", head, rest]],
+                            [op, ["conj", head, rest], ["eq", "q", 0]]])
+        if head[0] == "loop" and op == "conda":
+            continue
+        cases.append(mk_case([], ["q"], [shape], maxans=10, budget=1500, ref_mode=("skip" if head[0] == "loop" else "bag")))
     for _ in range(n // 10):
         v = rnd.randint(1, 5)
         cases.append(mk_case([], ["q"], [[rnd.choice(["condu", "onceo"]), ["conj", ["lib", "always"], ["eq", "q", v]]]],
@@ -256,6 +273,13 @@ def run_c09(tier, seed, replay=None):
     rnd = random.Random(seed)
     n = 300 if tier == "quick" else 2500
     cases = gen_tree_cases(rnd, n, TREE + ["always", "loop", "conda", "onceo"], maxans=7, budget=2500)
+    ones = ["def", "ones", ["params", "l"], "closure", ["cond", ["eq", "l", "nil"], ["fresh", ["m"], ["eq", "l", ["cons", 1, "m"]], ["call", "ones", "m"]]]]
+    for _ in range(n // 6):
+        k = rnd.choice([["dfs", ["fresh", ["l"], ["call", "ones", "l"], ["eq", "q", "l"]]],
+                        ["dfs", ["call", "ones", "q"], ["lib", "member", "r", ["list", 1, 2]]],
+                        ["dfs", ["cond", ["call", "ones", "q"], ["eq", "q", 5]], ["neq", "q", ["list", 1]]],
+                        ["dfs", ["fresh", ["l"], ["lib", "append", "l", ["list", rnd.randint(1, 3)], "q"]], ["eq", "r", 0]]])
+        cases.append(mk_case([ones], ["q", "r"], [k], maxans=rnd.randint(2, 6), budget=1500, must_answer=True))
     for c in list(cases[: n // 2]):
         cases.append(dict(c))
 
@@ -264,7 +288,11 @@ def run_c09(tier, seed, replay=None):
         first = {}
         for k, (c, i) in enumerate(zip(cs, impl)):
             if i.error:
+                if c.get("must_answer") and not i.error.startswith("notrun") and model[k].answers:
+                    fails.append({"case_index": k, "what": "taking the first %d answers of a productive query did not return (%s)" % (len(model[k].answers), i.error)})
                 continue
+            if c.get("must_answer") and len(i.answers) < len(model[k].answers):
+                fails.append({"case_index": k, "what": "taking the first answers of a productive query delivered %d of the %d answers available within the step budget" % (len(i.answers), len(model[k].answers))})
             if "notfused" in (i.end or ""):
                 fails.append({"case_index": k, "what": "the iterator returned an answer after returning None"})
             key = c["line"]
@@ -314,7 +342,7 @@ def run_c10(tier, seed, replay=None):
     rnd = random.Random(seed)
     n = 250 if tier == "quick" else 2000
     cases = []
-    allow = ["eq", "eq", "neq", "neq", "cond", "fresh", "conj", "member"]
+    allow = ["eq", "eq", "neq", "neq", "cond", "fresh", "conj", "member", "true", "false"]
     for _ in range(n):
         g = P.Gen(rnd, allow=allow, depth=2)
         q = ["q", "r"]
